@@ -61,8 +61,10 @@ func (c *vfC03RConn) WriteTo(p []byte, addr net.Addr) (int, error) {
 	}
 	return len(p), nil
 }
-func (c *vfC03RConn) Close() error                       { return nil }
-func (c *vfC03RConn) LocalAddr() net.Addr                { return &net.UDPAddr{IP: net.IPv4(127, 0, 0, 1), Port: 4433} }
+func (c *vfC03RConn) Close() error { return nil }
+func (c *vfC03RConn) LocalAddr() net.Addr {
+	return &net.UDPAddr{IP: net.IPv4(127, 0, 0, 1), Port: 4433}
+}
 func (c *vfC03RConn) SetDeadline(t time.Time) error      { return nil }
 func (c *vfC03RConn) SetReadDeadline(t time.Time) error  { return nil }
 func (c *vfC03RConn) SetWriteDeadline(t time.Time) error { return nil }
